@@ -99,7 +99,9 @@ Fixpoint run_ops (r : brr) (ops : list val) (hs : list Z) {struct ops} : option 
 (* ---- gslb cases: input [[7 subs retryMax crossRetry] ops], subs = [[name weight [[id confWeight] ...]] ...]
         ops [6 algo retry key flips] BalanceGslb.Balance (algo 1 WRR, 2 sticky, 4 WLC; req.RetryTime = retry),
             [2 id b] SetAvail, [3 id d] connNum += d,
-            [7 [[sub weight] ...]] BalanceGslb.Reload, [8 [[sub [[id confWeight] ...]] ...]] BackendReload
+            [7 [[sub weight] ...]] BalanceGslb.Reload, [8 [[sub [[id confWeight] ...]] ...]] BackendReload,
+            [9 stratPresent strategy headerKind stickyPresent sticky] a cluster conf with that GslbBasic.HashConf goes
+               through the real loader (cluster_conf.ClusterConfLoad); accepted -> SetGslbBasic, observation [0]; rejected -> [1]
         observation of a Balance: [h r sub retryAfter [state of every sub-cluster ...]];
         of Reload / BackendReload: [rejected? [[sub weight state] ...]] ---- *)
 Definition dec_gsub (v : val) : option gsub :=
@@ -112,7 +114,8 @@ Inductive gop :=
 | GAvail (id : Z) (b : bool)
 | GConn (id d : Z)
 | GReload (g : list (Z * Z))
-| GBack (cb : list (Z * list (Z * Z))).
+| GBack (cb : list (Z * list (Z * Z)))
+| GHash (sp strat hk stp : Z) (st : bool).
 Definition dec_subconf (v : val) : option (Z * list (Z * Z)) :=
   match v with VL [VZ n; c] => match dec_conf c with Some conf => Some (n, conf) | None => None end | _ => None end.
 Definition dec_gop (v : val) : option gop :=
@@ -124,6 +127,8 @@ Definition dec_gop (v : val) : option gop :=
     end
   | VL [VZ 2; VZ id; VZ b] => Some (GAvail id (negb (b =? 0)))
   | VL [VZ 3; VZ id; VZ d] => Some (GConn id d)
+  | VL [VZ 9; VZ sp; VZ strat; VZ hk; VZ stp; VZ st] =>
+    if (0 <=? hk) && (hk <=? 5) then Some (GHash sp strat hk stp (negb (st =? 0))) else None
   | VL [VZ 7; g] => match dec_conf g with Some g' => if distinct (map fst g') then Some (GReload g') else None | None => None end
   | VL [VZ 8; VL l] => match all_some (map dec_subconf l) with
                       | Some cb => if distinct (map fst cb) then Some (GBack cb) else None
@@ -143,17 +148,22 @@ Definition wf_gback (cb : list (Z * list (Z * Z))) (c : gcluster) : bool :=
   forallb (fun s => match sub_conf_find (gname s) cb with
                     | Some conf => Nat.leb (length (new_ids conf (backends (gbrr s)))) 1
                     | None => true end) (gsubs c).
-Definition gstep (c : gcluster) (o : gop) (h : Z) : gcluster * val * option (Z * res) :=
+Definition gstep (hc : hconf) (c : gcluster) (o : gop) (h : Z) : hconf * gcluster * val * option (Z * res) :=
   match o with
+  | GHash sp strat hk stp st =>
+    match hash_conf_check sp strat hk stp st with
+    | Some hc' => (hc', c, VL [VZ 0], None)            (* accepted by the loader and installed (SetGslbBasic) *)
+    | None => (hc, c, VL [VZ 1], None)                 (* rejected at load: nothing installed *)
+    end
   | GBal algo retry sc =>
-    let '(c', x, sub, rt) := gslb_balance algo h retry sc c in
-    (c', VL [VZ h; enc_res x; VZ sub; VZ rt; enc_gstate c'], Some (algo, x))
-  | GAvail id b => (gmap_brr (set_dyn id (fun x => mkBe (bid x) (bw x) (bcur x) b (bcn x))) c, VZ 0, None)
-  | GConn id d => (gmap_brr (set_dyn id (fun x => mkBe (bid x) (bw x) (bcur x) (bav x) (bcn x + d))) c, VZ 0, None)
-  | GReload g => let '(c', e) := greload g c in (c', VL [vbool e; enc_gstate_w c'], None)
-  | GBack cb => let c' := gbackend_reload cb c in (c', VL [VZ 0; enc_gstate_w c'], None)
+    let '(c', x, sub, rt) := gslb_balance_hc hc algo h retry sc c in
+    (hc, c', VL [VZ h; enc_res x; VZ sub; VZ rt; enc_gstate c'], Some (algo, x))
+  | GAvail id b => (hc, gmap_brr (set_dyn id (fun x => mkBe (bid x) (bw x) (bcur x) b (bcn x))) c, VZ 0, None)
+  | GConn id d => (hc, gmap_brr (set_dyn id (fun x => mkBe (bid x) (bw x) (bcur x) (bav x) (bcn x + d))) c, VZ 0, None)
+  | GReload g => let '(c', e) := greload g c in (hc, c', VL [vbool e; enc_gstate_w c'], None)
+  | GBack cb => let c' := gbackend_reload cb c in (hc, c', VL [VZ 0; enc_gstate_w c'], None)
   end.
-Fixpoint run_gops (c : gcluster) (ops : list val) (hs : list Z) {struct ops} : option (list (val * option (Z * res))) :=
+Fixpoint run_gops (hc : hconf) (c : gcluster) (ops : list val) (hs : list Z) {struct ops} : option (list (val * option (Z * res))) :=
   match ops with
   | [] => Some []
   | v :: rest =>
@@ -163,12 +173,12 @@ Fixpoint run_gops (c : gcluster) (ops : list val) (hs : list Z) {struct ops} : o
       let h := match o with GBal _ _ _ => hd 0 hs | _ => 0 end in
       let hs' := match o with GBal _ _ _ => tl hs | _ => hs end in
       if negb (match o with GBack cb => wf_gback cb c | _ => true end) then None else
-      let '(c', obs, x) := gstep c o h in
+      let '(hc', c', obs, x) := gstep hc c o h in
       if negb (wf_gstate c') then None else
       (* a cross retry with two candidates is a random choice in Go: the model stops there (code 99) and the rest of
          the history is not compared *)
       if (match x with Some (_, RErr c99) => c99 =? 99 | _ => false end) then Some [(obs, x)] else
-      match run_gops c' rest hs' with Some l => Some ((obs, x) :: l) | None => None end
+      match run_gops hc' c' rest hs' with Some l => Some ((obs, x) :: l) | None => None end
     end
   end.
 (* well-formed cluster: distinct names and backend ids, positive total weight, at most two sub-clusters of weight >= 0
@@ -182,7 +192,7 @@ Definition run_with (i : val) (hs : list Z) : option (list (val * option (Z * re
   match i with
   | VL [VL [VZ 7; VL sv; VZ rmax; VZ cross]; VL ops] =>
     match all_some (map dec_gsub sv) with
-    | Some subs => if wf_gcluster subs rmax cross then run_gops (ginit subs rmax cross) ops hs else None
+    | Some subs => if wf_gcluster subs rmax cross then run_gops hc_default (ginit subs rmax cross) ops hs else None
     | None => None
     end
   | VL [c; VL ops] =>
